@@ -141,9 +141,9 @@ theorem client_get_zstd (C : Codec) (F : Flags) (hF : F.clientEOF = false) (st :
     have hok : offsetOk c.length 0 = true := by simp [offsetOk]
     have hres : (if F.strictR = true then
           (if (!offsetOk c.length 0) = true then ({ res := some eOffset } : ReadOut)
-           else { zdata := some (C.enc (List.drop (Int.toNat 0) c)) })
+           else zsend C (List.drop (Int.toNat 0) c) 0 none)
         else { zdata := some (C.enc c) }) = { zdata := some (C.enc c) } := by
-      cases F.strictR <;> simp [hok]
+      cases F.strictR <;> simp [hok, zsend]
     simp only [hres, clientGet, hcodec, hF]
     simp only [Bool.false_eq_true, false_and, if_false]
     exact cvLoop_valid C d 13 [c] c (by simp) hv
